@@ -24,6 +24,7 @@ type delta struct {
 	Field string // "node/types.Pledge.UsedStorage"
 	Sign  int    // +1, -1, 0 = plain assignment
 	Term  string // the amount added/subtracted (or assigned), parameters renamed by type ($Shard, $Order, ...)
+	Raw   string // same, but keeping the memory-instability markers (~)
 	Ins   *ssa.Store
 }
 
@@ -80,6 +81,7 @@ func deltasOf(r *core.Run, fn *ssa.Function) []delta {
 			}
 			base := normT(res.Of(st.Addr).String())
 			v := normT(res.Of(st.Val).String())
+			rawV := res.Of(st.Val).String()
 			d := delta{Field: fp, Ins: st}
 			for _, pat := range []struct {
 				pre  string
@@ -94,6 +96,10 @@ func deltasOf(r *core.Run, fn *ssa.Function) []delta {
 				if strings.HasPrefix(v, pat.pre) && strings.HasSuffix(v, ")") {
 					d.Sign = pat.sign
 					d.Term = byTypeParams(fn, v[len(pat.pre):len(v)-1])
+					// raw amount: last top-level argument of the raw value term
+					if i := strings.LastIndex(rawV, ","); i >= 0 && strings.HasSuffix(rawV, ")") {
+						d.Raw = byTypeParams(fn, rawV[i+1:len(rawV)-1])
+					}
 				}
 			}
 			if d.Sign == 0 {
@@ -258,6 +264,7 @@ func checkC14(r *core.Run) {
 		coupleSame(r, "T-couple", h, "node/types.Pledge.TotalStoragePledged", "node/types.Pool.TotalPledged.Amount", true)
 	}
 	ruleShardPledgeBooked(r)
+	ruleReleaseTerm(r)
 }
 
 // ---------------------------------------------------------------- C06
@@ -266,6 +273,7 @@ func checkC06(r *core.Run) {
 	r.Explanation = "C06 (three necessary clauses): every module account named in a bank call is registered in app.maccPerms with the permission the call needs (otherwise the bank panics and the payout the records entitle someone to cannot happen); the error of every bank call in consensus code is consumed (otherwise records are updated for a transfer that failed); the set of money flows is the closed table (no unaccounted outflow). The inequality balance >= sum owed is not decided."
 	r.Rule("CAP-macc: constant module names at bank call sites ∈ app.maccPerms; MintCoins needs Minter, BurnCoins Burner")
 	r.Rule("T-bankerr: the error result of every bank mutator call is tested, stored or returned")
+	r.Rule("T-booked: in ShardPledge the collateral persisted in the shard equals the coins taken (or balance taken + debt recorded)")
 	r.Rule("E7-flow: every bank mutator call site matches a row of the closed flow table (modules, counter-party term, amount form)")
 	r.Assume(aDeps)
 	r.Assume(aCG)
@@ -273,6 +281,7 @@ func checkC06(r *core.Run) {
 	ruleMacc(r)
 	ruleBankErr(r)
 	ruleFlows(r, "C06")
+	ruleBooked(r)
 }
 
 // ---------------------------------------------------------------- C07
@@ -320,7 +329,12 @@ func checkC07(r *core.Run) {
 		}
 	}
 	ruleShardPledgeBooked(r)
-	// ShardPledge: the collateral stored equals the coin moved (or moved + recorded debt)
+	ruleReleaseTerm(r)
+	ruleBooked(r)
+}
+
+// ruleBooked: ShardPledge — the collateral stored equals the coin moved (or moved + recorded debt).
+func ruleBooked(r *core.Run) {
 	if fn := r.Func("T-booked", "node/keeper.Keeper.ShardPledge"); fn != nil {
 		ds := findDelta(deltasOf(r, fn), "order/types.Shard.Pledge")
 		key := core.Key("T-booked", "node/keeper.Keeper.ShardPledge", "Shard.Pledge == coins taken (+ debt recorded)")
@@ -367,5 +381,25 @@ func checkC07(r *core.Run) {
 		} else {
 			r.Violate("T-booked", key, r.P.FuncPos(fn), "ShardPledge persists a collateral amount that differs from the coins it takes (plus the debt it records)")
 		}
+	}
+}
+
+// ruleReleaseTerm: ShardRelease lowers the provider's total shard collateral by exactly shard.Pledge (the
+// amount ShardPledge added for that shard), not by a locally adjusted figure.
+func ruleReleaseTerm(r *core.Run) {
+	fn := r.Func("T-couple", "node/keeper.Keeper.ShardRelease")
+	if fn == nil {
+		return
+	}
+	key := core.Key("T-couple", "node/keeper.Keeper.ShardRelease", "Pledge.TotalShardPledged -= shard.Pledge")
+	ds := findDelta(deltasOf(r, fn), "node/types.Pledge.TotalShardPledged")
+	if len(ds) == 1 && ds[0].Sign == -1 && ds[0].Raw == "$Shard.Pledge" {
+		r.Discharge("T-couple", key, r.P.Pos(ds[0].Ins.Pos()), "the total is lowered by the released shard's recorded collateral")
+	} else {
+		got := "no single subtraction found"
+		if len(ds) == 1 {
+			got = fmt.Sprintf("%+d×(%s)", ds[0].Sign, shorten(ds[0].Raw))
+		}
+		r.Violate("T-couple", key, r.P.FuncPos(fn), "ShardRelease does not lower Pledge.TotalShardPledged by exactly shard.Pledge ("+got+"): after debt repayment the total stays above the sum over the provider's live shards")
 	}
 }
